@@ -1,6 +1,6 @@
 """Run the real implementation / the extracted model on cases and bring both to one canonical observation form.
 
-canonical results:  pres = ('P', [tok...], [(name, [(tok, pos)...])...], sorted(all_names), name, modal)
+canonical results:  pres = ('P', [tok...], [(name, [(tok, pos)...])...], sorted(all_names), name)
                     tok  = ('s', str) | ('i', int) | ('b', bool) | 'none' | ('l', [tok...]) | ('p', pres)
 canonical outcomes: ('ok', pres) | ('err', class_name, loc, message_text, element_id|None) | ('div',)
                     ('scan', [(pres, start, end)...], 'done' | ('err', ...) | 'div')
@@ -59,7 +59,7 @@ def pres_from_sx(p):
     d = [(_s(kv[0]), [(tok_from_sx(vp[0]), int(vp[1])) for vp in kv[1]]) for kv in p[2]]
     names = sorted(_s(x) for x in p[3])
     rn = None if p[4] == "N" else _s(p[4])
-    return ("P", toks, d, names, rn, p[5] == "1")
+    return ("P", toks, d, names, rn)      # `_modal` is write-only in pyparsing (no method reads it): not compared
 
 
 # ---------- the real objects ----------
@@ -77,7 +77,7 @@ def tok_from_real(v):
 def pres_from_real(r):
     toks = [tok_from_real(x) for x in r._toklist]
     d = [(str(k), [(tok_from_real(v[0]), v[1]) for v in occ]) for k, occ in r._tokdict.items()]
-    return ("P", toks, d, sorted(str(x) for x in r._all_names), r._name, bool(r._modal))
+    return ("P", toks, d, sorted(str(x) for x in r._all_names), r._name)
 
 
 def exc_from_real(e, dumper):
@@ -105,21 +105,29 @@ def _on_alarm(signum, frame):
     raise _Timeout()
 
 
-def run_real(root, dumper, inp, mode, entry, timeout=0.75):
+def run_real(root, dumper, inp, mode, entry, timeout=0.5):
     """a case that runs longer than `timeout` seconds is reported as ('div',): the real parser spins on
     repetitions whose body matches without consuming"""
     import signal
     old_handler = signal.signal(signal.SIGALRM, _on_alarm)
-    signal.setitimer(signal.ITIMER_REAL, timeout)
+    div = ("div",) if entry[0] != "scan" else ("scan", [], "div")
     try:
-        return _run_real(root, dumper, inp, mode, entry)
+        try:
+            signal.setitimer(signal.ITIMER_REAL, timeout)
+            r = _run_real(root, dumper, inp, mode, entry)
+        finally:
+            signal.setitimer(signal.ITIMER_REAL, 0)
     except _Timeout:
-        return ("div",) if entry[0] != "scan" else ("scan", [], "div")
+        r = div
     finally:
-        signal.setitimer(signal.ITIMER_REAL, 0)
-        signal.signal(signal.SIGALRM, old_handler)
-        LAST_STATS[:] = list(pp.ParserElement.packrat_cache_stats)
-        pp.ParserElement.disable_memoization()
+        try:
+            signal.setitimer(signal.ITIMER_REAL, 0)
+            signal.signal(signal.SIGALRM, old_handler)
+            LAST_STATS[:] = list(pp.ParserElement.packrat_cache_stats)
+            pp.ParserElement.disable_memoization()
+        except _Timeout:
+            pass
+    return r
 
 
 def _run_real(root, dumper, inp, mode, entry):
